@@ -322,8 +322,37 @@ def ones(shape, dtype=None):
     return Tensor(tuple(shape), lambda idx: z3.RealVal(1))
 
 
+_KINDS = {"floating": {"float", "float32", "float16", "float64"}, "integer": {"int", "int32", "int64"}, "complexfloating": {"complex", "complex64"},
+          "inexact": {"float", "float32", "float16", "float64", "complex", "complex64"}, "bool": {"bool"}}
+_KINDS["number"] = _KINDS["inexact"] | _KINDS["integer"]
+
+
+def result_type(*xs):
+    Assumed.note("jnp.result_type / issubdtype: dtype lattice bool < int < float < complex (kinds floating/integer/inexact/complexfloating)")
+    order = ["bool", "int", "float", "complex"]
+    best = 0
+    for x in xs:
+        d = getattr(x, "dtype", None)
+        if d is None:
+            d = "bool" if isinstance(x, bool) else "int" if isinstance(x, int) else "float" if isinstance(x, float) else "complex" if isinstance(x, complex) else None
+        if d is None:
+            raise EngineLimit("result_type of %r" % type(x))
+        d = {"float32": "float", "float64": "float", "int32": "int", "complex64": "complex"}.get(d, d)
+        if d not in order:
+            raise EngineLimit("result_type of dtype %r" % (d,))
+        best = max(best, order.index(d))
+    return order[best]
+
+
+def issubdtype(d, kind):
+    if kind in _KINDS:
+        return d in _KINDS[kind]
+    return d == kind
+
+
 def namespace(**extra):
     ns = StubNS(
+        result_type=result_type, issubdtype=issubdtype, floating="floating", integer="integer", inexact="inexact", complexfloating="complexfloating", number="number",
         array=array, asarray=asarray, shape=shape, ndim=ndim, where=where, sum=sum, any=any,
         minimum=minimum, maximum=maximum, log=log, exp=exp, add=add, ndarray=object, arange=arange, zeros=zeros, ones=ones, mean=mean, repeat=repeat, nan=float('nan'), inf=INF, isfinite=isfinite, isinf=lambda x: ~isfinite(x), cumsum=cumsum, searchsorted=searchsorted, diag=diag, linalg=StubNS(inv=inv, slogdet=slogdet), zeros_like=lambda x: zeros(x.shape) if hasattr(x, 'shape') and x.shape else Sym(z3.RealVal(0)), concatenate=concatenate,
         float32="float32", int32="int32", bool_="bool", pi=3.141592653589793,
